@@ -300,6 +300,11 @@ def scalar_values(t):
     raise ValueError(t)
 
 
+def dyn_extents(cfg):
+    """runtime extents of dynamic dimensions: 0 included but not dominant"""
+    return st.one_of(st.sampled_from([0, 1, 1, 2, 2, 3]), st.integers(0, cfg.max_dyn_extent))
+
+
 @st.composite
 def values(draw, spec, cfg, nullable=True):
     return _draw_value(draw, spec, cfg)
@@ -314,7 +319,7 @@ def _draw_value(draw, spec, cfg):
     if k == "struct":
         return {fn: _draw_value(draw, ft, cfg) for fn, ft in spec["fields"]}
     if k == "array":
-        shape = [draw(st.integers(0, cfg.max_dyn_extent)) if d is None else d for d in spec["shape"]]
+        shape = [draw(dyn_extents(cfg)) if d is None else d for d in spec["shape"]]
         n = math.prod(shape)
         return {"shape": shape, "flat": [_draw_value(draw, spec["item"], cfg) for _ in range(n)]}
     if k == "ref":
